@@ -143,6 +143,7 @@ package multiplex
 //@   ensures copied: ret0.id == id && ret0.Unordered == config.Unordered && ret0.Singleplex == config.Singleplex && ret0.sessionKey == config.sessionKey && ret0.payloadCipher == config.payloadCipher
 //@   ensures valve: config.Valve != nil ==> ret0.Valve == config.Valve
 //@   ensures open: ret0.closed == 0 && ret0.nextStreamID == 1 && ret0.activeStreamCount == 0 && ret0.sb != nil
+//@   ensures wired: ret0.sb.session == ret0 && ret0.sb.valve == ret0.Valve && ret0.Valve != nil
 
 //@ func makeSwitchboard
 //@   requires sesh != nil
@@ -241,8 +242,9 @@ package multiplex
 //@ poolinv Session.recvFramePool: typeIs[*Frame](x) && x.(*Frame) != nil
 
 //@ ghost func seshOK(sesh *Session) bool {
-//@     return sesh != nil && sesh.sb != nil && cipherOK(&sesh.Obfuscator) && sesh.Valve != nil && sesh.maxStreamUnitWrite == sesh.MsgOnWireSizeLimit - 14 - 255 && sesh.streamSendBufferSize == sesh.MsgOnWireSizeLimit && sesh.maxStreamUnitWrite > 0
+//@     return sesh != nil && sesh.sb != nil && cipherOK(&sesh.Obfuscator) && sesh.Valve != nil && sesh.maxStreamUnitWrite == sesh.MsgOnWireSizeLimit - 14 - 255 && sesh.streamSendBufferSize == sesh.MsgOnWireSizeLimit && sesh.maxStreamUnitWrite > 0 && sesh.sb.session == sesh
 //@ }
+//@ ghost func closable(sesh *Session) bool { return seshOK(sesh) && sesh.sb.valve != nil }
 //@ ghost func nextSeq(a uint64, b uint64) bool { return (a < 18446744073709551615 && b == a + 1) || (a == 18446744073709551615 && b == 0) }
 
 //@ func MakeSession$2
@@ -257,7 +259,7 @@ package multiplex
 //@   requires sb != nil
 //@   ensures connOnSuccess: ret1 == nil ==> ret0 != nil
 //@ func (*switchboard).send
-//@   requires sb != nil && sb.session != nil && sb.valve != nil && assignedConn != nil
+//@   requires sb != nil && sb.session != nil && sb.valve != nil && assignedConn != nil && sb.session.sb != nil && locksBelow(sb.session.streamsM)
 //@   ensures allOrError: err == nil ==> n == len(data)
 //@   # C19: every message waits for its whole length in the DOWNLOAD (tx) bucket before it is written, and
 //@   # what was written is added to the tx counter
@@ -284,6 +286,7 @@ package multiplex
 //@ func (*Stream).obfuscateAndSend
 //@   requires s.session != nil && seshOK(s.session) && s.session.sb.session != nil && s.session.sb.valve != nil
 //@   requires locked: held(s.writingM)
+//@   requires order: locksBelow(s.session.streamsM)
 //@   requires placement: payloadOffsetInBuf == 14 ==> aliases(s.writingFrame.Payload, buf, 14)
 //@   requires copyMode: payloadOffsetInBuf != 14 ==> disjoint(s.writingFrame.Payload, buf)
 //@   requires keyApart: arrayOf(buf) != arrayOf(s.session.sessionKey) && arrayOf(s.writingFrame.Payload) != arrayOf(s.session.sessionKey)
@@ -332,7 +335,7 @@ package multiplex
 //@   preserves Frame.StreamID, Frame.Seq, Frame.Closing, Frame.Payload, Stream.id, Stream.session, Session.sb, SessionConfig.MsgOnWireSizeLimit, Session.maxStreamUnitWrite, Session.streamSendBufferSize, SessionConfig.Unordered, SessionConfig.Valve, SessionConfig.Singleplex, Obfuscator.payloadCipher, switchboard.session, switchboard.valve, heap(B_Slice), Session.streams
 
 //@ func (*Session).Close
-//@   requires sesh != nil && sesh.sb != nil && sesh.sb.session != nil && sesh.sb.valve != nil && cipherOK(&sesh.Obfuscator) && sesh.streamSendBufferSize == sesh.MsgOnWireSizeLimit && sesh.MsgOnWireSizeLimit >= 14 + 256 + 16 && !held(sesh.streamsM) && locksBelow(sesh.streamsM)
+//@   requires closable(sesh) && !held(sesh.streamsM) && locksBelow(sesh.streamsM)
 //@   # C12/C03: the closing notice is a session-closing frame with 1..256 padding bytes, sent only by the
 //@   # caller that won the CAS; afterwards every connection is closed
 //@   atcall obfuscate requires closingNotice: f.Closing == closingSession && len(f.Payload) >= 1 && len(f.Payload) <= 256
@@ -627,7 +630,7 @@ package multiplex
 //@   flag noframe
 // checkTimeout: the inactivity timer closes the session only if it saw NO open stream.
 //@ func (*Session).checkTimeout
-//@   requires sesh != nil && holdsNone()
+//@   requires closable(sesh) && holdsNone()
 //@   atcall Close requires sawNoOpenStream: lastret("(*Session).streamCount") == 0
 //@   flag noframe
 
